@@ -2607,3 +2607,38 @@ func pcValuesWhenWide(f *pcF, subj string) (ISet, bool) {
 	}
 	return out, true
 }
+
+// ValueUnder follows v back through the phis of fn to the one incoming value
+// whose edge is taken under the model (atoms the model does not know may not
+// matter).  ok is false when that is not decided.
+func (s *Sym) ValueUnder(fn *ssa.Function, v ssa.Value, model func(*pcAtom) (bool, bool), depth int) (ssa.Value, bool) {
+	for {
+		if ct, ok := v.(*ssa.ChangeType); ok {
+			v = ct.X
+			continue
+		}
+		break
+	}
+	phi, ok := v.(*ssa.Phi)
+	if !ok || depth > 8 {
+		return v, true
+	}
+	var picked ssa.Value
+	n := 0
+	for i, e := range phi.Edges {
+		pred := phi.Block().Preds[i]
+		cond := pcAndF(s.PathCond(fn.Blocks[0], pred, nil), s.edgeCond(pred, phi.Block(), nil))
+		val, decided := pcEvalFree(cond, model)
+		if !decided {
+			return nil, false
+		}
+		if val {
+			n++
+			picked = e
+		}
+	}
+	if n != 1 {
+		return nil, false
+	}
+	return s.ValueUnder(fn, picked, model, depth+1)
+}
